@@ -273,9 +273,13 @@ def run(ctx):
     selfref = []
     for i in range(ctx.n(40, 400)):
         files = gen_graph(rng, n_files=rng.randrange(2, 4))
-        for f in files:
+        for j, f in enumerate(files):
             f["json"] = False
-            f["rel"] = f["rel"].replace(".json", "")
+            f["rel"] = f["rel"].replace(".json", f"_n{j}")      # keep file names distinct
+        for f in files:
+            f["includes"] = []
+        for j in range(len(files) - 1):
+            files[j]["includes"].append(os.path.relpath(files[j + 1]["rel"], os.path.dirname(files[j]["rel"]) or "."))
         files[0]["content"] = {"k1": "$k1", "keep": 1}
         files[0]["text"] = "\n".join(f"#include '{inc}'" for inc in files[0]["includes"]) + "\nk1  $k1;\nkeep  1;\n"
         selfref.append({"files": files})
